@@ -113,6 +113,30 @@ def run(ctx):
     ctx.correspond("INJECT", inj, hb, db, flags=fl, coq_sample=4, predicate=inj_pred,
                    nontrivial=lambda c, i: "ok" in i)
     ctx.correspond("BMAP", bmap_cases(ctx.rng.fork("bmap"), ctx.tier), hb, db, flags=fl, coq_sample=8)
+    # long runs inside varied data, fed as ONE slice (a block-local counter that wraps, a run-length shortcut): every byte value for
+    # the 48-bucket variant, byte pairs for the others; first the implementation against itself (one slice vs 4 KiB pieces, cheap),
+    # then the differing inputs against the reference through the model (~9 s each)
+    lr = ctx.rng.fork("longrun")
+    one, pieces = [], []
+    for b in range(256):
+        for v, b2 in (("S", b), ("N", lr.below(256)), ("L", lr.below(256))) if (ctx.tier != "quick" or b % 4 == 0) else (("S", b),):
+            # run lengths just above 2^16/k (k = 2, 3, 1): k increments per byte into one bucket then total slightly more than 2^16
+            for n in (32768 + 3 + lr.below(40), 21846 + 2 + lr.below(30), 65536 + 5 + lr.below(40)):
+                head = "hist %s ugen %d 9000 " % (v, 1 + b)
+                tail = " ugen %d 7000 l f 30 f 2 fd" % (300 + b)
+                one.append(head + "urun %d %d %d 0" % (b, b2, n) + tail)
+                pieces.append(head + "urun %d %d %d 4096" % (b, b2, n) + tail)
+    o1 = core.run_cases(hb, one, tag="c01r1")
+    o2 = core.run_cases(hb, pieces, tag="c01r2")
+    suspects = [c for c, a, b in zip(one, o1, o2) if a != b][:3]
+    ctx.evaluations += 2 * len(one)
+    ctx.suites["LONG-RUN"] = {"cases": len(one), "one_slice_vs_pieces_differences": len([1 for a, b in zip(o1, o2) if a != b])}
+    if suspects:
+        def lr_pred(c, i, m):
+            if i != m:
+                return "a long run fed as one slice: the implementation gives `%s`, the reference (through the verified model) `%s`" % (i[:90], m[:90])
+            return None
+        ctx.correspond("LONG-RUN-VS-REFERENCE", suspects, hb, db, flags=fl, predicate=lr_pred, coq_sample=0, nontrivial=lambda c, i: True)
     # the builds that compile the OTHER generator code: no SIMD aggregation + single Pearson table + low-memory buckets (lowmem),
     # naive aggregation with the default tables (nosimd), statically selected SSE2 aggregation: a third of GEN-HASH decided against
     # the reference's outputs computed above, and the injected states against the model
